@@ -59,6 +59,12 @@ def run(ctx):
                 r.count = rng.choice([10, 100, 400])
             ext = ";SHIFT=" + rng.choice(["0B", "1B", "-0B", "-1B", "2B", "-2B", "1B+", "-1B-", "3B", "1,0B", "-1,-0B"])
             cls = {"shift", "meeting-shift"}
+        if i % 11 == 7 and not zoned and r.freq in ("YEARLY", "MONTHLY") and not r.byweekno and not r.byyearday:
+            # SHIFT reckoned in a Hijri scale: month lengths and weekdays are the scale's
+            ext = ";SHIFT=%s;SCALE=%s" % (rng.choice(["1", "-1", "7", "-16", "30", "70", "-200", "1B", "-1B", "0B", "-0B", "1B+", "-1B-", "5B",
+                                                      "-4B", "2,1B", "%d" % rng.randint(-366, 366), "%dB" % rng.randint(-60, 60)]),
+                                             rng.choice(["HIJRI", "HIJRI.IA", "HIJRI.IIC", "HIJRI.DIYANET", "HIJRI.IVA"]))
+            cls = {"shift", "hijri", "hijri-shift"}
         zone = rng.choice(ZONES) if zoned else None
         if "hijri" in cls:
             # a DTSTART the Hijri table covers, rule parts that exist on that scale
